@@ -56,7 +56,7 @@ ASSUMPTIONS = [
     "(cbr_local, cbr_local_previous) are offered out of range, as the statement says 'local'",
     "invalid CBR offered to the reactive machine is only checked for |delta state| <= 1 (the statement demands no rejection there)",
     "gate: B.2 taken as t_pg + min(max(delta_old/delta_new*(t_go-t_pg),0.025),1) from the docstring citation; the reading 'B.1 with "
-    "the new delta' is tracked too and any opening instant between both is accepted (they differ only after a clamp)",
+    "the new delta' is tracked (probe gate:b2-forms-differ) but not accepted: the statement says 'exactly' (seeded breakage C19c)",
     "gate tolerance: 1 ns plus the float rounding of absolute times (8 ulp of t_go, and the ulp error B.2 amplifies by delta_old/delta_new); "
     "at 2026 Unix times one ulp is 238 ns, so nanosecond probes are decisive only in the runs whose clock starts below 1000 s",
     "a delta update falling inside the tolerance zone of the opening instant makes the gate state unknown until the next admission "
